@@ -28,7 +28,10 @@ RULE = (
     "through the real wrapper; non-trivial = at least one recv boundary falls inside a chunk "
     "(size line, data or terminating CRLF); distinct by construction"
 )
-ENC = {"chunked": 1, "gzip": 1 | 2, "compress": 1 | 4, "deflate": 1 | 8}
+ENC = {"chunked": 1, "gzip": 1 | 2, "compress": 1 | 4, "deflate": 1 | 8,
+       # the flags "can be OR'd": the wrapper then undoes gzip, zlib and raw deflate in that order
+       "gzip+deflate": 1 | 2 | 8, "compress+deflate": 1 | 4 | 8, "gzip+compress": 1 | 2 | 4,
+       "gzip+compress+deflate": 15}
 PATTERN = b"a\r\n0\r\n\r\nF3\rb\n1A\r\n0\r\nzz"
 
 
@@ -46,18 +49,23 @@ def ref_dechunk(wire: bytes, mode="chunked") -> bytes:
         data = wire[pos : pos + size]
         if len(data) < size or wire[pos + size : pos + size + 2] != b"\r\n":
             break  # incomplete last chunk: nothing more can be delivered
-        if mode == "gzip":
-            data = zlib.decompress(data, wbits=zlib.MAX_WBITS | 16)
-        elif mode == "compress":
-            data = zlib.decompress(data, wbits=zlib.MAX_WBITS)
-        elif mode == "deflate":
-            data = zlib.decompress(data, wbits=-zlib.MAX_WBITS)
+        for layer in mode.split("+"):
+            if layer == "gzip":
+                data = zlib.decompress(data, wbits=zlib.MAX_WBITS | 16)
+            elif layer == "compress":
+                data = zlib.decompress(data, wbits=zlib.MAX_WBITS)
+            elif layer == "deflate":
+                data = zlib.decompress(data, wbits=-zlib.MAX_WBITS)
         out += data
         pos += size + 2
     return out
 
 
 def compress(data, mode):
+    if "+" in mode:  # innermost layer = the one the receiver undoes last
+        for layer in reversed(mode.split("+")):
+            data = compress(data, layer)
+        return data
     if mode == "gzip":
         co = zlib.compressobj(6, zlib.DEFLATED, zlib.MAX_WBITS | 16)
     elif mode == "compress":
@@ -72,7 +80,8 @@ def encode(chunks, style="lower", terminator=True, mode="chunked"):
     for c in chunks:
         body = c if mode == "chunked" else compress(c, mode)
         n = len(body)
-        size = {"lower": f"{n:x}", "upper": f"{n:X}", "padded": f"{n:04x}"}[style].encode()
+        size = {"lower": f"{n:x}", "upper": f"{n:X}", "padded": f"{n:04x}", "padded9": f"{n:09x}",
+                "padded17": f"{n:017X}"}[style].encode()
         wire += size + b"\r\n" + body + b"\r\n"
     if terminator:
         wire += b"0\r\n\r\n"
@@ -106,11 +115,26 @@ def bodies(tier):
         for term in (True, False):
             out.append({"name": f"framing-like/{[len(c) for c in chunks]}/{'T' if term else 'noT'}",
                         "chunks": chunks, "style": "lower", "term": term, "mode": "chunked"})
+    # size fields with many leading zeros (RFC 9112: 1*HEXDIG, any number of digits), and more
+    # complete chunks in one receive than any plausible per-receive bound (300 and 700)
+    for chunks in ([b"a"], [b"hello", b"\r\n"], [pat[:17], b"b", pat[3:13]]):
+        for style in ("padded9", "padded17"):
+            for term in (True, False):
+                out.append({"name": f"{[len(c) for c in chunks]}/{style}/{'T' if term else 'noT'}",
+                            "chunks": chunks, "style": style, "term": term, "mode": "chunked"})
+    for count in (300, 700):
+        many = [bytes([97 + i % 26]) * (1 + i % 2) for i in range(count)]
+        out.append({"name": f"many-chunks/{count}", "chunks": many, "style": "lower", "term": True,
+                    "mode": "chunked", "nobfs": True})
     # one large, repetitive body per compression (decoded size beyond 16 KiB, repeats reaching far back)
     big = b"".join(bytes((i * 7 + j) & 0xFF for j in range(300)) for i in range(3)) * 40
     for mode in ("gzip", "compress", "deflate"):
         out.append({"name": f"{mode}/big{len(big)}", "chunks": [big, b"tail"], "style": "lower", "term": True,
                     "mode": mode, "nobfs": True})
+    for mode in ("gzip+deflate", "compress+deflate", "gzip+compress", "gzip+compress+deflate"):
+        for chunks in ([b"hello world"], [b"abc", b"", b"\xd3\x00\x00"]):
+            out.append({"name": f"{mode}/{[len(c) for c in chunks]}/T", "chunks": chunks, "style": "lower",
+                        "term": True, "mode": mode})
     for mode in ("gzip", "compress", "deflate"):
         for chunks in ([b"hello world"], [b"ab", b"\r\n0\r\n\r\n"], [b"x" * 40, b"y", b"zz"],
                        [b"abc", b"", b"def"], [b"", b"tail"], [b"0", b"", b"", b"0\r\n"]):
